@@ -21,7 +21,7 @@ RULE = ('driven exhaustively: every list length n = 0..N (N = 10 quick, 13 thoro
         'on the two list-producing functions - every line of every written file must carry exactly the groups that the recorded '
         '(list, tie decisions) imply, empty lists included, and the solver must read the first-side lists back with the implied ranks; non-trivial = vector with at least one 1 among the first n-1 '
         'decisions; distinct = distinct (n, vector); evaluations = reader executions')
-ASSUMPTIONS = ['the entry ids of the list are a random permutation of 1..n (ids do not influence parenthesisation)']
+ASSUMPTIONS = ['the entry ids of the list are a random permutation of 1..n, or of 258..257+n for one vector in nine (ids do not influence parenthesisation)']
 
 
 def plan(tier):
@@ -37,11 +37,26 @@ def exp_ranks(t, n):
     return out
 
 
-def embed(kind, na, toks, n):
-    """Build a file whose first-side (kind 'first') or second-side list is *toks*."""
+def embed(kind, na, toks, n, off=0):
+    """Build a file whose first-side (kind 'first') or second-side list is *toks*.  With off > 0 the listed
+    projects (first side) are numbered off+1.., and the hospital / lecturer that owns the second-side list has
+    number off+1 / off+2 (three-digit ids, beyond the interpreter's cache of small integers)."""
     txt = ' '.join(toks)
+    if off and kind == 'second':
+        ns = n
+        if na == 2:
+            lines = ['%d %d' % (ns, off + 1)] + ['%d: %d' % (s + 1, off + 1) for s in range(ns)]
+            lines += ['%d: 0: 1: ' % (j + 1) for j in range(off)]
+            lines.append('%d: 0: %d: %s' % (off + 1, n, txt))
+        else:
+            lines = ['%d 2 %d' % (ns, off + 2)] + ['%d: 1' % (s + 1) for s in range(ns)]
+            lines.append('1: 0: %d: %d' % (n, off + 2))
+            lines.append('2: 0: 1: 1')
+            lines += ['%d: 0: 1: 1: ' % (j + 1) for j in range(off + 1)]
+            lines.append('%d: 0: %d: %d: %s' % (off + 2, n, n, txt))
+        return '\n'.join(lines) + '\n'
     if kind == 'first':
-        ns, np_ = 1, max(n, 1)
+        ns, np_ = 1, off + max(n, 1)
         head = '%d %d' % (ns, np_) if na == 2 else '%d %d 1' % (ns, np_)
         lines = [head, '1: ' + txt]
         for j in range(np_):
@@ -81,9 +96,12 @@ def run_shard(ctx):
             idx += 1
             if idx % ctx.nshards != ctx.shard:
                 continue
-            ids = list(range(1, n + 1))
+            off = 257 if (idx % 9 == 4 and n >= 1) else 0
+            ids = list(range(off + 1, off + n + 1))
             random.Random(idx * 7919 + ctx.seed).shuffle(ids)
-            case = {'n': n, 'ties': list(t), 'ids': ids}
+            case = {'n': n, 'ties': list(t), 'ids': ids, 'id_offset': off}
+            if off:
+                ctx.cnt('vectors_with_three_digit_ids')
             ctx.cnt('vectors')
             if any(t[:-1]):
                 ctx.nontrivial('%d/%s' % (n, ''.join(map(str, t))))
@@ -110,7 +128,9 @@ def run_shard(ctx):
                 if kind == 'second' and n == 0:
                     continue
                 for na in (2, 3):
-                    text = embed(kind, na, toks, n)
+                    text = embed(kind, na, toks if (kind == 'first' or not off) else [
+                        ('(' if x.startswith('(') else '') + str(int(x.strip('()')) - off) + (')' if x.endswith(')') else '')
+                        for x in toks], n, off)
                     path = en.write_file(ctx.workdir, text)
                     argv = ['-f', path, '-na', str(na), '-twopl']
                     ctx.cnt('reader_executions')
@@ -125,9 +145,9 @@ def run_shard(ctx):
                     m = s.model
                     if kind == 'first':
                         got_ids = [p.projectID for p in m.pairs[0]]
-                        got = [p.rank_student for p in m.pairs[0]]
+                        got = [getattr(p, 'rank_student', 'no rank_student attribute') for p in m.pairs[0]]
                     else:
-                        by = {p.studentID: p.rank_lecturer for row in m.pairs for p in row}
+                        by = {p.studentID + off: getattr(p, 'rank_lecturer', 'no rank_lecturer attribute') for row in m.pairs for p in row}
                         got_ids = ids
                         got = [by.get(i) for i in ids]
                     if got_ids != ids or got != want:
